@@ -64,7 +64,9 @@ type group struct {
 
 // C02: values returned by whole-buffer (fast paths) and one-byte-chunked (byte-at-a-time paths) front-ends
 var setC02 = [][2]string{{"oj.Parse", ""}, {"oj.ParseReader", "whole"}, {"oj.ParseReader", "1"}, {"oj.Tokenize1", ""},
-	{"oj.TokenizeLoad1", "1"}, {"gen.Parse", ""}, {"gen.ParseReader", "1"}}
+	{"oj.TokenizeLoad1", "1"}, {"gen.Parse", ""}, {"gen.ParseReader", "1"},
+	// the SEN front-ends read JSON too (the property's anchors name sen/parser.go and sen/tokenizer.go)
+	{"sen.Parse", ""}, {"sen.ParseReader", "1"}, {"sen.Tokenize1", ""}, {"sen.TokenizeLoad1", "1"}}
 
 var valOpt = absval.Opt{AlwaysDec: true, FloatMid: true}
 
